@@ -1619,7 +1619,11 @@ gen(Src& s, int size)
       if (!no_exclude("N5"))
         for (const char* key : { "block_gap_ax", "block_gap_tr" })
           if (c["scanner"][key].get<double>() < 0.01)
-            c["scanner"][key] = 0.01;
+            {
+              c["scanner"][key] = 0.01;
+              vf::stats().excluded_known++;
+              vf::stats().count("excluded N5: generator enlarged a zero block gap to 0.01 mm");
+            }
     }
   shared_ptr<Scanner> sc = vg::make_scanner(c["scanner"]);
   vg::PdiOpts po;
@@ -1642,7 +1646,11 @@ gen(Src& s, int size)
   // N4 (notes): TOF data mashed into a single TOF bin are written with a non-TOF header and come back with
   // TOF mashing factor 0; excluded by construction (non-TOF data on the TOF scanner instead)
   if (single_mashed_tof_bin(c) && !no_exclude("N4"))
-    c["pdi"]["tof_mash"] = 0;
+    {
+      c["pdi"]["tof_mash"] = 0;
+      vf::stats().excluded_known++;
+      vf::stats().count("excluded N4: generator replaced single-TOF-bin data by non-TOF data");
+    }
   // not more than ~3000 bins (DESIGN C02 bounds): fewer tangential positions first, then fewer segments
   for (int guard = 0; guard < 40; ++guard)
     {
